@@ -365,6 +365,14 @@ func (e *Engine) addEnvIntrinsics() {
 		sec := env.fixedNow/1e9 + unixToInternal
 		return mkTime(uint64(sec), uint64(env.fixedNow%1e9))
 	}
+	in["time.Date"] = func(c *callCtx) Value {
+		a := make([]int, 7)
+		for i := range a {
+			a[i] = c.int(i)
+		}
+		nt := time.Date(a[0], time.Month(a[1]), a[2], a[3], a[4], a[5], a[6], time.UTC)
+		return mkTime(uint64(nt.Unix()+unixToInternal), uint64(nt.Nanosecond()))
+	}
 	in["time.Unix"] = func(c *callCtx) Value {
 		sec, nsec := c.args[0], c.args[1]
 		if t, ok := sec.(*Term); ok {
